@@ -294,4 +294,20 @@ SEGMENTS = {
         sig="pub(crate) fn seg_ac(&self, count: usize) -> Qcow2Result<Option<(u64, usize)>>",
         await_calls=["try_allocate_from"],
     ),
+    # ---- extension of the active L1 header entries
+    "LE": dict(
+        parts=[
+            dict(fn="ensure_l2_offset", start=r"if !l1_table\.in_bounds\(l1_index\)",
+                 sig="pub(crate) fn seg_le(&self, l1_table: &mut L1Table, l1_index: usize) -> Qcow2Result<()>",
+                 pre="        let info = &self.info;", post="        Ok(())",
+                 await_calls=["allocate_clusters", "flush_refcount", "flush_mapping", "flush_top_table", "flush_header_for_l1_table", "free_clusters"],
+                 rewrites=[(r"self\.k_flush_top_table\(", "self.k_flush_top_table_l1("),
+                           (r"self\.header\.read\(\)\.await", "self.header.kread()")]),
+            dict(fn="flush_header_for_l1_table", start="FULL",
+                 sig="pub(crate) fn seg_lf(&self, l1_offset: u64, l1_entries: usize) -> Qcow2Result<()>",
+                 await_calls=["commit_header"],
+                 rewrites=[(r"self\.header\.write\(\)\.await", "self.header.kwrite()")]),
+        ],
+        file="src/dev/write.rs",
+    ),
 }
